@@ -6,7 +6,7 @@
   `fail? ≠ some .panic`.  The Go partial operations behind `Failure.panic` are
     * the visitor / a hook dereferencing a nil kind pointer (`Ty.bad`)            → `NoBad`
     * constant_to_enum: `Value.(string)` on a string scalar holding a non-string  → `ScalarConstantsTyped`
-    * hint_object: a write to a nil `Hints` map                                   → `NoNilHints` (or no hints configured)
+    * hint_object: since fix d683cb9 in /repo the nil `Hints` map is made first: total under `NoBad`
     * PrefixObjectNames: `Hints[disjunction_of_refs].(DisjunctionType)`           → `NoRawDisjunctionHint`
   `NoBad` is part of `wfIR`; the other three hold for every IR produced by a front-end (their
   constructors make the maps and put typed payloads) but NOT for types written in YAML `as:` —
@@ -340,7 +340,6 @@ def xfCond : Xf → Schemas → Bool
   | .retypeObject p, S => NoBad S && typeNameOk p.as_
   | .retypeField p, S => NoBad S && typeNameOk p.as_
   | .constantToEnum _, S => NoBad S && ScalarConstantsTyped S
-  | .hintObject p, S => NoBad S && (p.hints.isEmpty || NoNilHints S)
   | .prefixObjectNames _, S => NoBad S && NoRawDisjunctionHint S
   | _, S => NoBad S
 
@@ -452,19 +451,7 @@ theorem xform_total (x : Xf) (S : Schemas) (h : xfCond x S = true) : isPanic (x.
     exact mkRun_noPanic _ _ (visitorFail_ne_panic S h ["enum"] _
       (fun _ _ ko _ hnb => by rw [walkFail_none _ _ hnb]; simp))
   | hintObject p =>
-    simp only [xfCond, Bool.and_eq_true, Bool.or_eq_true] at h
-    refine mkRun_noPanic _ _ (visitorFail_ne_panic S h.1 [] _ ?_)
-    intro s hs ko hko _
-    simp only [HintObject.objFail]
-    split
-    · rename_i hc
-      simp only [Bool.and_eq_true] at hc
-      rcases h.2 with he | hn
-      · simp [he] at hc
-      · simp only [NoNilHints, List.all_eq_true] at hn
-        have := hn s hs ko hko
-        simp [hc.2] at this
-    · simp
+    exact mkRun_noPanic _ _ (visitorFail_ne_panic S h [] _ (fun _ _ _ _ _ => by simp [HintObject.objFail]))
   | schemaSetIdentifier p => rfl
   | schemaSetEntryPoint p => rfl
   | prefixObjectNames p =>
